@@ -115,6 +115,7 @@ let () =
              | "hllc" -> hllc_case farith float_of_n fln ftrunc o
              | "hser" -> hser_case o
              | "mem" -> mem_case o
+             | "hset" -> hs_case (!u, o)
              | "sizing" -> sizing_case farith float_of_n fln (fun x -> Obj.repr (Float.log2 (fl x))) (fun x -> Obj.repr (Float.ceil (fl x)))
                              ftrunc (Obj.repr (Int64.float_of_bits 0x4005BF0A8B145769L)) float_of_bits_n o
              | s -> failwith ("unknown structure " ^ s)) in
